@@ -333,8 +333,18 @@ func virtualNow() (int64, bool) {
 	if atomic.LoadInt32(&virtual) == 0 {
 		return 0, false
 	}
+	if d := atomic.LoadInt64(&autoTick); d != 0 {
+		return atomic.AddInt64(&vnow, d) - d, true
+	}
 	return atomic.LoadInt64(&vnow), true
 }
+
+var autoTick int64
+
+// SetAutoTick makes every clock reading advance the virtual clock by d ns
+// (0 switches it off): consecutive readings inside one call then differ, as they
+// do with the real clock.
+func SetAutoTick(d int64) { atomic.StoreInt64(&autoTick, d) }
 
 // VNow returns the virtual instant in ns.
 func VNow() int64 { return atomic.LoadInt64(&vnow) }
